@@ -129,6 +129,17 @@ struct Triv
   int v;
 };
 
+#define SVMC_ELEM_COMPARE(TYPE)                                                                  \
+  inline bool operator== (const TYPE& a, const TYPE& b) { return a.v == b.v; }                    \
+  inline bool operator!= (const TYPE& a, const TYPE& b) { return a.v != b.v; }                    \
+  inline bool operator<  (const TYPE& a, const TYPE& b) { return a.v <  b.v; }
+SVMC_ELEM_COMPARE (TokNM)
+SVMC_ELEM_COMPARE (TokTM)
+SVMC_ELEM_COMPARE (TokMO)
+SVMC_ELEM_COMPARE (TokMOT)
+SVMC_ELEM_COMPARE (TokCO)
+SVMC_ELEM_COMPARE (Triv)
+
 template <typename T> struct ElemTraits;
 
 #define SVMC_TOK_TRAITS(TYPE, NAME, COPYABLE, MOVE_NOTHROW)                                      \
